@@ -61,6 +61,56 @@ pub fn refusal_mask(p: &Program, flat: &[Op]) -> Vec<bool> {
         .collect()
 }
 
+/// mask[i] == true: the contract says nothing about op i (an index outside the matrix): the crate
+/// may refuse it or not. Refused => it must leave no trace; accepted => the outcome is undefined
+/// and the reference stops judging the history from there.
+pub fn open_mask(p: &Program, flat: &[Op]) -> Vec<bool> {
+    let n = match p.ctor {
+        Ctor::Slit(n) => n,
+        _ => 0,
+    };
+    flat.iter().map(|op| matches!(op, Op::SlitSet(a, b, _) if *a >= n || *b >= n)).collect()
+}
+
+/// Folds the observations of a driven history into the list of ops the reference must encode.
+pub struct Tracker {
+    must_refuse: Vec<bool>,
+    open: Vec<bool>,
+    next: usize,
+    pub accepted: Vec<Op>,
+    /// an op with an unspecified outcome was accepted: nothing after it can be judged
+    pub undefined: bool,
+}
+
+impl Tracker {
+    pub fn new(p: &Program, flat: &[Op]) -> Self {
+        Tracker { must_refuse: refusal_mask(p, flat), open: open_mask(p, flat), next: 0, accepted: Vec::new(), undefined: false }
+    }
+    /// call on every observation, in order; returns the kind of a refusal mismatch of the op just applied
+    pub fn observe(&mut self, flat: &[Op], step: usize, refused: bool) -> Option<&'static str> {
+        while self.next < step {
+            let i = self.next;
+            let was_refused = refused && i + 1 == step; // refused ops are always observed
+            if self.open[i] {
+                if !was_refused {
+                    self.undefined = true;
+                }
+            } else if !self.must_refuse[i] {
+                self.accepted.push(flat[i].clone());
+            }
+            self.next += 1;
+        }
+        if step == 0 || self.open[step - 1] {
+            return None;
+        }
+        match (refused, self.must_refuse[step - 1]) {
+            (true, false) => Some("refused-valid"),
+            (false, true) => Some("accepted-invalid"),
+            _ => None,
+        }
+    }
+}
+
 /// Sdt::new refuses declared lengths below the header size
 pub fn ctor_refused(p: &Program) -> bool {
     matches!(p.ctor, Ctor::Sdt { len, .. } if len < 36)
